@@ -199,6 +199,13 @@ func checkC19(p *Prog, r *Report) {
 							if (fname == "ModuleManager" || fname == "configurator") && no.dominates(st, callI) {
 								okOrder++
 							}
+							if fname == "configurator" {
+								// RunMigrations type-asserts the SDK's own (unexported) configurator type: a wrapper around it makes every
+								// upgrade handler fail ("expected configurator") and the chain halts at the upgrade height
+								t := no.Of(st.Val)
+								r.Check(t.IsCall("sdk/types/module.NewConfigurator"), kp("WIRE", "app.New#configurator=module.NewConfigurator(…)"), "the configurator kept by the app (and captured by the upgrade handlers) is the value module.NewConfigurator returns, not a wrapper around it", p.Pos(st.Pos()),
+									"app.configurator = module.NewConfigurator(…)", "app.configurator is assigned "+clip(t.String(), 160)+": module.Manager.RunMigrations accepts only the SDK's own configurator type, so every upgrade handler returns an error and the node halts in the upgrade block")
+							}
 						}
 					}
 				}
